@@ -146,6 +146,7 @@ fn prefetch(lines: &[String], per_child: usize) {
     for chunk in lines.chunks(per_child.max(1)) {
         let todo: Vec<(String, String)> = chunk
             .iter()
+            .filter(|l| inner_run(&Req::parse(l).unwrap().chan).is_some()) // only the isolated channels
             .map(|l| (canonical_key(&Req::parse(l).unwrap()), l.clone()))
             .filter(|(k, _)| cache_get(k).is_none())
             .collect();
@@ -493,9 +494,18 @@ fn run_sntree_new(r: &Req) -> String {
     isolated(r, sntree_new_inner)
 }
 
+/// Response of the channels `analysis` / `analysis.cg`: the tree, the ordering, and the verdict
+/// `valid=<0|1>` of `check_clique_tree` on them.  The Lean driver appends the verdict of the
+/// machine-checked predicate `Clarabel.Chordal.validCliqueTreeB` (proved equivalent to the
+/// Prop-level `ValidCliqueTree`, `ClarabelProofs/Lemmas/ChordalValid.lean`) evaluated on the
+/// MODEL's tree, so the exact comparison also flags any disagreement of the two checkers.
 fn analysis_inner(r: &Req) -> String {
     let (t, ord) = hk::sparsity_pattern_new(lpat(r), r.us("ordering"), 0, r.str("merge"));
-    format!("{} ordering={}", fmt_tree(&t), fus(&ord))
+    // (a checker panic on a garbage tree counts as "invalid"; the tree itself stays visible)
+    let (n, edges) = (r.u("n"), req_edges(r));
+    let valid = std::panic::catch_unwind(std::panic::AssertUnwindSafe(|| check_clique_tree(n, &edges, &t, &ord).is_ok()))
+        .unwrap_or(false);
+    format!("{} ordering={} valid={}", fmt_tree(&t), fus(&ord), valid as usize)
 }
 fn run_analysis(r: &Req) -> String {
     isolated(r, analysis_inner)
@@ -684,7 +694,287 @@ fn oracle_analysis(r: &Req, out: &str) -> Result<(), String> {
     let o = Req::parse(&format!("x {}", out)).ok_or("unparsable")?;
     let t = parse_tree(&o);
     let ord = o.us("ordering");
-    check_clique_tree(r.u("n"), &req_edges(r), &t, &ord)
+    check_clique_tree(r.u("n"), &req_edges(r), &t, &ord)?;
+    // the verdict travelling in the response (compared with the Lean checker's verdict on the
+    // model's tree) must be the one just recomputed
+    if !o.has("valid") || o.str("valid") != "1" {
+        return Err(format!("response carries valid={} for a tree that passes check_clique_tree",
+            if o.has("valid") { o.str("valid") } else { "<missing>" }));
+    }
+    Ok(())
+}
+
+// ---- tree.valid: the two validity checkers against each other, mostly on INVALID trees
+//
+// The channels `analysis*` only ever show the Lean checker `validCliqueTreeB` valid trees.  Here
+// the tree returned by the implementation is corrupted in one random place (a separator vertex
+// dropped / added, a parent pointer redirected, the post-order permuted, `nblk` off by one, a
+// vertex moved to another supernode, an extra pattern entry, ...) and the verdict of the Rust
+// oracle `check_clique_tree` is compared with the verdict of the machine-checked Lean checker.
+
+fn run_tree_valid(r: &Req) -> String {
+    let t = parse_tree(r);
+    let ord = r.us("ordering");
+    let (n, edges) = (r.u("n"), req_edges(r));
+    let valid = std::panic::catch_unwind(std::panic::AssertUnwindSafe(|| check_clique_tree(n, &edges, &t, &ord).is_ok()))
+        .unwrap_or(false);
+    format!("valid={}", valid as usize)
+}
+fn oracle_tree_valid(r: &Req, out: &str) -> Result<(), String> {
+    // kind 0 = the implementation's tree, unchanged: it has to be accepted
+    if r.u("kind") == 0 && out != "valid=1" {
+        return Err(format!("the uncorrupted tree of the implementation is rejected: {}", out));
+    }
+    Ok(())
+}
+
+// ---- the hypotheses of the pipeline theorems, evaluated on every analysis case
+//
+// `filled`: `LPat.Filled` (lean/ClarabelProofs/Lemmas/ChordalEtree.lean) re-stated independently;
+// `perm`: the ordering is a permutation; `edges`: every pattern entry is an entry of L at the
+// positions of its endpoints in the ordering.  The model side evaluates the machine-checked
+// executable forms `LPat.filledB` (⇔ `LPat.Filled`), `clOrderingPerm`, `LPat.edgesInB`.
+
+fn lpat_filled(n: usize, colptr: &[usize], rowval: &[usize]) -> bool {
+    if n == 0 || colptr.len() != n + 1 {
+        return false;
+    }
+    if (0..n).any(|v| colptr[v] > colptr[v + 1]) || colptr[n] > rowval.len() {
+        return false;
+    }
+    let col = |v: usize| &rowval[colptr[v]..colptr[v + 1]];
+    for v in 0..n {
+        let c = col(v);
+        if c.iter().any(|&r| r <= v || r >= n) || c.windows(2).any(|w| w[0] >= w[1]) {
+            return false;
+        }
+        if v + 1 < n {
+            if c.is_empty() {
+                return false;
+            }
+            // closure: col(v) minus its first row p lies in col(p)
+            let p = c[0];
+            if c[1..].iter().any(|r| !col(p).contains(r)) {
+                return false;
+            }
+        }
+    }
+    true
+}
+
+fn run_analysis_hyp(r: &Req) -> String {
+    let (n, colptr, rowval, ord) = (r.u("n"), r.us("colptr"), r.us("rowval"), r.us("ordering"));
+    let filled = lpat_filled(n, &colptr, &rowval);
+    let mut seen = vec![false; n];
+    let perm = ord.len() == n && ord.iter().all(|&x| x < n && !std::mem::replace(&mut seen[x], true));
+    // same total semantics as `LPat.edgesInB` (defined on every input, also malformed ones)
+    let getd = |v: usize| colptr.get(v).copied().unwrap_or(0);
+    let col = |v: usize| -> &[usize] {
+        let (lo, hi) = (getd(v), getd(v + 1).min(rowval.len()));
+        if lo < hi { &rowval[lo..hi] } else { &[] }
+    };
+    let pos = |x: usize| ord.iter().position(|&y| y == x).unwrap_or(ord.len());
+    let edges = req_edges(r).iter().all(|&(i, j)| {
+        let (a, b) = (pos(i), pos(j));
+        a < n && b < n && a < ord.len() && b < ord.len() && (col(a).contains(&b) || col(b).contains(&a))
+    });
+    format!("filled={} perm={} edges={}", filled as usize, perm as usize, edges as usize)
+}
+fn oracle_analysis_hyp(_r: &Req, out: &str) -> Result<(), String> {
+    // the symbolic factor and ordering produced by the implementation (find_graph) must satisfy
+    // the hypotheses under which the analysis is proved correct
+    if out != "filled=1 perm=1 edges=1" {
+        return Err(format!("find_graph's output violates a hypothesis of the C17 pipeline theorems: {}", out));
+    }
+    Ok(())
+}
+
+fn hash_line(s: &str) -> u64 {
+    let mut h = 0xcbf29ce484222325u64;
+    for b in s.bytes() {
+        h = (h ^ b as u64).wrapping_mul(0x100000001b3);
+    }
+    h
+}
+
+/// A copy of the tree returned for the analysis request `req`, corrupted in one place
+/// (`kind` 0: unchanged).  Uses its own random stream so that the session's stream is untouched.
+fn corrupted_tree_line(req: &Req, out: &Req, rng: &mut Rng) -> Option<String> {
+    let n = req.u("n");
+    let mut edges = req_edges(req);
+    let mut t = parse_tree(out);
+    let mut ord = out.us("ordering");
+    let k = t.snode.len();
+    if n == 0 || k == 0 || t.snode_post.is_empty() || t.separators.len() != k || t.snode_parent.len() != k {
+        return None;
+    }
+    let live = t.snode_post.clone();
+    let lc = live[rng.below(live.len())].min(k - 1); // a live clique
+    let kind = if rng.bool(0.1) { 0 } else { 1 + rng.below(19) };
+    match kind {
+        0 => {}
+        1 => {
+            // drop a vertex of a separator
+            let c = (0..k).filter(|&c| !t.separators[c].is_empty()).collect::<Vec<_>>();
+            if let Some(&c) = c.get(rng.below(c.len().max(1))) {
+                let i = rng.below(t.separators[c].len());
+                t.separators[c].remove(i);
+            }
+        }
+        2 => t.separators[lc].push(rng.below(n)), // extra separator vertex (possibly a repetition)
+        3 => {
+            // replace a separator vertex
+            if !t.separators[lc].is_empty() {
+                let i = rng.below(t.separators[lc].len());
+                t.separators[lc][i] = rng.below(n);
+            }
+        }
+        4 => {
+            // redirect a parent pointer
+            let cands = [NO_PARENT, INACTIVE, rng.below(k), live[rng.below(live.len())], k];
+            t.snode_parent[lc] = cands[rng.below(cands.len())];
+        }
+        5 => {
+            // permute the post-order
+            let (i, j) = (rng.below(live.len()), rng.below(live.len()));
+            t.snode_post.swap(i, j);
+        }
+        6 => {
+            // nblk off by one / swapped / missing
+            match t.nblk.as_mut() {
+                Some(nb) if !nb.is_empty() && rng.bool(0.8) => {
+                    let i = rng.below(nb.len());
+                    match rng.below(3) {
+                        0 => nb[i] += 1,
+                        1 => nb[i] = nb[i].saturating_sub(1),
+                        _ => {
+                            let j = rng.below(nb.len());
+                            nb.swap(i, j);
+                        }
+                    }
+                }
+                _ => t.nblk = None,
+            }
+        }
+        7 => {
+            // move a vertex to another supernode
+            let to = live[rng.below(live.len())].min(k - 1);
+            if let Some(v) = t.snode[lc].pop() {
+                t.snode[to].push(v);
+            }
+        }
+        8 => {
+            // a live clique disappears from the post-order
+            t.snode_post.pop();
+            t.n_cliques = t.n_cliques.saturating_sub(1);
+        }
+        9 => {
+            // children list: drop / add an entry
+            if t.snode_children.len() == k {
+                if !t.snode_children[lc].is_empty() && rng.bool(0.5) {
+                    t.snode_children[lc].pop();
+                } else {
+                    t.snode_children[lc].push(rng.below(k));
+                }
+            }
+        }
+        10 => t.n_cliques = if rng.bool(0.5) { t.n_cliques + 1 } else { t.n_cliques.saturating_sub(1) },
+        11 => {
+            // an extra pattern entry (covered or not)
+            let (i, j) = (rng.below(n), rng.below(n));
+            edges.push((i.min(j), i.max(j)));
+        }
+        12 => {
+            // ordering: transposition (a permutation, coverage may break)
+            let (i, j) = (rng.below(ord.len().max(1)), rng.below(ord.len().max(1)));
+            if !ord.is_empty() {
+                ord.swap(i, j);
+            }
+        }
+        13 => {
+            // ordering: not a permutation any more
+            if !ord.is_empty() {
+                let i = rng.below(ord.len());
+                ord[i] = if rng.bool(0.5) { n } else { ord[rng.below(ord.len())] };
+            }
+        }
+        14 => {
+            // a dead clique becomes non-empty, or a second root
+            let dead: Vec<usize> = (0..k).filter(|c| !live.contains(c)).collect();
+            if !dead.is_empty() && rng.bool(0.6) {
+                let d = dead[rng.below(dead.len())];
+                if rng.bool(0.5) { t.snode[d].push(rng.below(n)) } else { t.separators[d].push(rng.below(n)) }
+            } else {
+                t.snode_parent[lc] = NO_PARENT;
+            }
+        }
+        15 => {
+            // supernode: replace a vertex (breaks the partition) or append a separator vertex to it
+            if !t.snode[lc].is_empty() {
+                let i = rng.below(t.snode[lc].len());
+                t.snode[lc][i] = rng.below(n + 1);
+            }
+        }
+        16 => {
+            // post-order: a repeated / out-of-range entry
+            let i = rng.below(t.snode_post.len());
+            t.snode_post[i] = if rng.bool(0.5) { k } else { live[rng.below(live.len())] };
+        }
+        17 => {
+            // the last clique of the post-order loses its largest vertex (the ranges stay consecutive)
+            let c = (*t.snode_post.last().unwrap()).min(k - 1);
+            if let Some(m) = t.snode[c].iter().copied().max() {
+                t.snode[c].retain(|&v| v != m);
+            }
+        }
+        18 => {
+            // swap two entries of the post-order and renumber the supernodes consecutively in the
+            // new order (separators keep their labels)
+            let (i, j) = (rng.below(live.len()), live.len() - 1);
+            t.snode_post.swap(i, j);
+            let mut next = 0;
+            for &c in &t.snode_post {
+                if c < k {
+                    let len = t.snode[c].len();
+                    t.snode[c] = (next..next + len).collect();
+                    next += len;
+                }
+            }
+        }
+        _ => {
+            // two corruptions that may cancel: swap two vertices between the separators of two cliques
+            let c2 = live[rng.below(live.len())].min(k - 1);
+            if !t.separators[lc].is_empty() && !t.separators[c2].is_empty() {
+                let (i, j) = (rng.below(t.separators[lc].len()), rng.below(t.separators[c2].len()));
+                let (a, b) = (t.separators[lc][i], t.separators[c2][j]);
+                t.separators[lc][i] = b;
+                t.separators[c2][j] = a;
+            }
+        }
+    }
+    // half of the time the derived fields are made consistent with the corrupted ones again, so
+    // that a single clause (separator = intersection, parents, ...) decides the verdict
+    if kind != 0 && kind != 6 && rng.bool(0.5) {
+        if let Some(nb) = t.nblk.as_mut() {
+            if nb.len() == t.snode_post.len() {
+                for (i, &c) in t.snode_post.iter().enumerate() {
+                    if c < k {
+                        nb[i] = t.snode[c].len() + t.separators[c].len();
+                    }
+                }
+            }
+        }
+    }
+    if (kind == 4 || kind == 14) && t.snode_children.len() == k && rng.bool(0.5) {
+        for &c in &live {
+            if c < k {
+                t.snode_children[c] = live.iter().copied().filter(|&d| d < k && t.snode_parent[d] == c).collect();
+            }
+        }
+    }
+    let ei: Vec<usize> = edges.iter().map(|p| p.0).collect();
+    let ej: Vec<usize> = edges.iter().map(|p| p.1).collect();
+    Some(format!("tree.valid n={} ei={} ej={} {} ordering={} kind={}", n, fus(&ei), fus(&ej), fmt_tree(&t), fus(&ord), kind))
 }
 
 // ---- find_graph (symbolic factor + AMD ordering; external code, oracle only)
@@ -841,6 +1131,12 @@ fn channels() -> Vec<Channel> {
             lean: "Chordal.sparsityPatternNew" },
         Channel { name: "analysis.cg", tol: Tol::Exact, run: run_analysis, oracle: Some(oracle_analysis), modelled: true,
             rust_fn: "SparsityPattern::new (clique_graph merge)", lean: "Chordal.sparsityPatternNewCG (CGStrategy.{initialise,traverse,evaluate,mergeTwoCliques,updateStrategy,postProcessMerge}, IMat, kruskal, ...)" },
+        Channel { name: "tree.valid", tol: Tol::Exact, run: run_tree_valid, oracle: Some(oracle_tree_valid), modelled: true,
+            rust_fn: "(harness oracle check_clique_tree, on corrupted copies of the analysis output)",
+            lean: "Chordal.validCliqueTreeB / Chordal.validCliqueTreeB_iff" },
+        Channel { name: "hyp.analysis", tol: Tol::Exact, run: run_analysis_hyp, oracle: Some(oracle_analysis_hyp), modelled: true,
+            rust_fn: "(hypotheses of the pipeline theorems on find_graph's output: filled pattern, permutation, pattern ⊆ L)",
+            lean: "Chordal.LPat.filledB / LPat.filledB_iff, clOrderingPerm, LPat.edgesInB / LPat.edgesInB_sound" },
         Channel { name: "info.new", tol: Tol::Exact, run: run_info_new, oracle: Some(oracle_info_new), modelled: false,
             rust_fn: "ChordalInfo::new / analyse_psdtriangle_sparsity_pattern", lean: "(oracle only)" },
         Channel { name: "batch", tol: Tol::Exact, run: run_batch, oracle: None, modelled: false,
@@ -1028,6 +1324,17 @@ fn analysis_lines(s: &mut Session, g: &Graph, with_sntree: bool) -> Vec<String> 
                 .done(),
         );
     }
+    // the hypotheses of the pipeline theorems on this symbolic factor / ordering / pattern
+    lines.push(
+        Line::new("hyp.analysis")
+            .u("n", g.0)
+            .us("colptr", &o.us("colptr"))
+            .us("rowval", &o.us("rowval"))
+            .us("ordering", &o.us("ordering"))
+            .us("ei", &ei)
+            .us("ej", &ej)
+            .done(),
+    );
     if with_sntree {
         lines.push(Line::new("sntree.new").u("n", g.0).us("colptr", &o.us("colptr")).us("rowval", &o.us("rowval")).done());
     }
@@ -1036,12 +1343,25 @@ fn analysis_lines(s: &mut Session, g: &Graph, with_sntree: bool) -> Vec<String> 
 
 fn run_lines(s: &mut Session, lines: Vec<String>, per_child: usize) {
     prefetch(&lines, per_child);
+    let mut corrupted = vec![];
     for l in lines {
         let is_analysis = l.starts_with("analysis");
         let merge = if l.contains("merge=none") { "none" } else if l.contains("merge=parent_child") { "parent_child" } else { "clique_graph" };
-        let out = s.submit(l);
+        let out = s.submit(l.clone());
         if is_analysis {
             if let Some(o) = Req::parse(&format!("x {}", out)) {
+                if o.has("ncl") && o.has("snode_len") && o.has("ordering") {
+                    // the two validity checkers against each other on a corrupted copy (own random
+                    // stream, derived from the request; every third small case, every large one)
+                    let mut rng = Rng::new(hash_line(&l) ^ s.seed);
+                    let req = Req::parse(&l).unwrap();
+                    if req.u("n") > 7 || rng.below(3) == 0 {
+                        let made = std::panic::catch_unwind(std::panic::AssertUnwindSafe(|| corrupted_tree_line(&req, &o, &mut rng)));
+                        if let Ok(Some(cl)) = made {
+                            corrupted.push(cl);
+                        }
+                    }
+                }
                 if o.has("ncl") && o.has("snode_len") {
                     let ncl = o.u("ncl");
                     let before = o.us("snode_len").len();
@@ -1053,6 +1373,11 @@ fn run_lines(s: &mut Session, lines: Vec<String>, per_child: usize) {
                 }
             }
         }
+    }
+    for cl in corrupted {
+        let kind = cl.rsplit("kind=").next().unwrap_or("?").to_string();
+        let out = s.submit(cl);
+        s.count(&format!("tree.valid:kind={}:{}", kind, out));
     }
 }
 
